@@ -10,6 +10,7 @@ import numpy as np
 import sympy as sp
 
 from pyvc import floatsym as F
+from pyvc.extract import get_function
 from pyvc.floatsym import Kernel, Res, factory_dims, zero
 
 CT = "moptipyapps.dynamic_control.controllers."
@@ -346,6 +347,126 @@ def check_systems(res):
         res.append(Res(qn, "post", "published-equations", P16, "proved" if good else "refuted", witness=wit))
 
 
+def check_constant_subscripts(module, factory, res):
+    """Kernels outside the straight-line subset (min_ann: bracket / golden-ratio search loops; predefined laws): memory
+    safety only.  Every subscript in the real function must be a literal index or a literal slice of one of the three
+    array parameters; each is compared with the dimensions the factory declares for that kernel.  Anything else
+    (variable index, subscript of another object) is undecided, not a violation."""
+    import ast as _ast
+    dims = factory_dims(module, factory)
+    if not dims:
+        res.append(Res(f"{module}:{factory}", "contract", "factory", P13, "undecided", reason="no Controller(...) call found"))
+    for fn, (sd, cd, pd) in sorted(dims.items()):
+        qn = f"{module}:{fn}"
+        fs = get_function(qn)
+        anames = [a.arg for a in fs.node.args.args]
+        if len(anames) != 4:
+            res.append(Res(qn, "bounds", "signature", P13, "undecided", reason=f"parameters {anames}"))
+            continue
+        size = {anames[0]: sd, anames[2]: pd, anames[3]: cd}
+        worst = {}
+        bad = []
+        stores = set()
+        in_annotation = set()
+        for n in _ast.walk(fs.node):
+            ann = getattr(n, "annotation", None)
+            if ann is not None:
+                in_annotation |= {id(x) for x in _ast.walk(ann)}
+        for n in _ast.walk(fs.node):
+            if not isinstance(n, _ast.Subscript) or id(n) in in_annotation:
+                continue
+            base = n.value.id if isinstance(n.value, _ast.Name) else None
+            if base not in size:
+                bad.append(_ast.unparse(n))
+                continue
+            if isinstance(n.ctx, _ast.Store):
+                stores.add(base)
+            sl = n.slice
+            try:
+                if isinstance(sl, _ast.Slice):
+                    if sl.step is not None:
+                        raise ValueError
+                    lo = 0 if sl.lower is None else int(_ast.literal_eval(sl.lower))
+                    hi = size[base] if sl.upper is None else int(_ast.literal_eval(sl.upper))
+                    idxs = [lo, hi - 1] if hi > lo else []
+                else:
+                    idxs = [int(_ast.literal_eval(sl))]
+            except Exception:
+                bad.append(_ast.unparse(n))
+                continue
+            for i in idxs:
+                w = worst.setdefault(base, [0, -1])
+                w[0], w[1] = min(w[0], i), max(w[1], i)
+        for arr, dim in size.items():
+            lo, hi = worst.get(arr, [0, -1])
+            st = "proved" if (-dim <= lo and hi < dim) else "refuted"
+            if bad:
+                st = "undecided" if st == "proved" else st
+            res.append(Res(qn, "bounds", f"{arr}[0..{dim - 1}]", P13, st, backend="syntactic",
+                           reason=f"literal subscripts of {arr} span {lo}..{hi}, declared dims={dim}"
+                                  + (f"; not literal: {bad[:3]}" if bad else ""),
+                           witness=None if st != "refuted" else {"array": arr, "index_range": [lo, hi], "declared": dim}))
+        res.append(Res(qn, "frame", "no-input-modified", P13, "proved" if stores <= {anames[3]} else "refuted",
+                       backend="syntactic", reason=f"subscript stores into {sorted(stores)}"))
+
+
+def check_no_element_subscripts(qn, res):
+    """A kernel made of whole-array operations only (allocation, slice assignment, sort, ufuncs, reductions): numba checks
+    the shapes of those at run time even with boundscheck=False; memory safety needs nothing else provided the function
+    contains no element subscript.  One obligation: every subscript in the real function is a full or partial slice."""
+    import ast as _ast
+    fs = get_function(qn)
+    in_annotation = set()
+    for n in _ast.walk(fs.node):
+        for ann in (getattr(n, "annotation", None), getattr(n, "returns", None)):
+            if ann is not None:
+                in_annotation |= {id(x) for x in _ast.walk(ann)}
+    elem = [_ast.unparse(n) for n in _ast.walk(fs.node)
+            if isinstance(n, _ast.Subscript) and id(n) not in in_annotation and not isinstance(n.slice, _ast.Slice)]
+    res.append(Res(qn, "bounds", "whole-array-operations-only", P13, "proved" if not elem else "undecided", backend="syntactic",
+                   reason="no element subscript in the function" if not elem else f"element subscripts {elem[:4]} need a contract"))
+
+
+def kernel_inventory():
+    """every function of the package that is compiled with numba: (qualified name, decorated with boundscheck=False)"""
+    import ast as _ast
+    import os
+    from pyvc.extract import REPO
+    out = []
+    for d, _, fns in os.walk(os.path.join(REPO, "moptipyapps")):
+        for f in sorted(fns):
+            if not f.endswith(".py"):
+                continue
+            path = os.path.join(d, f)
+            mod = os.path.relpath(path, REPO)[:-3].replace(os.sep, ".")
+            try:
+                tree = _ast.parse(open(path, encoding="utf-8").read())
+            except SyntaxError:
+                continue
+            def visit(body, prefix):
+                for n in body:
+                    if isinstance(n, _ast.FunctionDef):
+                        if any("jit" in _ast.unparse(x) for x in n.decorator_list):
+                            out.append(f"{mod}:{prefix}{n.name}")
+                        visit(n.body, prefix + n.name + ".")
+                    elif isinstance(n, _ast.ClassDef):
+                        visit(n.body, prefix + n.name + ".")
+                    elif hasattr(n, "body") and isinstance(getattr(n, "body"), list):
+                        visit(n.body, prefix)
+                        visit(getattr(n, "orelse", []) or [], prefix)
+            visit(tree.body, "")
+    return sorted(out)
+
+
+def prove_c13_other_controllers(tier, seed):
+    res = []
+    check_constant_subscripts(CT + "min_ann", "min_anns", res)
+    check_constant_subscripts(CT + "predefined", "predefined", res)
+    check_no_element_subscripts("moptipyapps.qap.instance:trivial_bounds", res)
+    prove_c13_other_controllers.last = res
+    return res
+
+
 def prove_c16(tier, seed):
     res = []
     t0 = time.time()
@@ -360,4 +481,5 @@ def prove_c16(tier, seed):
         if not r.backend:
             r.backend = "sympy"
     prove_c16.programs = n
+    prove_c16.last = res
     return res
